@@ -77,6 +77,8 @@ def sx_len(x):
 
 
 def sx_int(x=0, *a):
+    if type(x).__name__ == "CStr":
+        return x.to_int(*a)
     if isinstance(x, SymInt):
         return x
     if isinstance(x, SymBool):
@@ -87,6 +89,8 @@ def sx_int(x=0, *a):
 
 
 def sx_float(x=0.0):
+    if type(x).__name__ == "CStr":
+        return x.to_float()
     if isinstance(x, SymFloat):
         return x
     if isinstance(x, SymInt):
